@@ -43,6 +43,12 @@ impl<P: MNT4Config> From<G2Affine<P>> for G2Prepared<P> {
             addition_coefficients: vec![],
         };
 
+        // The point at infinity has no line functions; the empty coefficient
+        // lists tell the Miller loop that this pair contributes the identity.
+        if g.infinity {
+            return g_prep;
+        }
+
         let mut r = G2ProjectiveExtended {
             x: g.x,
             y: g.y,
